@@ -1,7 +1,13 @@
 #!/bin/sh
 # collect_seed.sh <worktree> <seed name>: copy a seeding agent's deliverables into /verif/seeded/<name>
+# (either <worktree>/_seeded/{patch.diff,demo.py,meta.json}, or an uncommitted diff + demo.py + meta.json in the root)
 set -e
 d=/verif/seeded/$2
 mkdir -p "$d"
-cp "$1/_seeded/patch.diff" "$1/_seeded/demo.py" "$1/_seeded/meta.json" "$d/"
+if [ -d "$1/_seeded" ]; then
+    cp "$1/_seeded/patch.diff" "$1/_seeded/demo.py" "$1/_seeded/meta.json" "$d/"
+else
+    git -C "$1" diff > "$d/patch.diff"
+    cp "$1/demo.py" "$1/meta.json" "$d/"
+fi
 echo "$d: $(grep -c '^[-+][^-+]' "$d/patch.diff") changed lines"
